@@ -50,6 +50,35 @@ def h_conv(I, direct_fi, fft_fi):
     P.check("conv.%s.inputs-untouched" % ("direct" if which == 0 else "fft"), c1.writes == 0 and c2.writes == 0, "the two input arrays are not written", kind="post")
 
 
+def h_dispatch(I, fi):
+    """_convolve_two_children (undecorated body): direct convolution below 1000 grid points, FFT from 1000 on; either way the result is
+    what that routine returns for (child_1, child_2) in this order (both = the truncated convolution: h_conv + conv_comm)."""
+    P = I.P
+    G = alg.sym("G", "Int")
+    P.assume(P.z(G) >= 1)
+    small = P.decide(2) == 1
+    P.assume(P.z(G) < 1000 if small else P.z(G) >= 1000)
+    dsl.cover(I, "dispatch.direct" if small else "dispatch.fft")
+
+    class A(Model):
+        py_classes = ("ndarray",)
+
+        def __init__(self, nm):
+            self.nm = nm
+
+        def a_shape(self, I_):
+            return (alg.sym("D", "Int"), G)
+
+    a, b = A("child_1"), A("child_2")
+    calls = []
+    I.registry.call_contracts[TU + "._np_conv_dims"] = lambda I_, ar, k, n: (calls.append(("direct", ar[0], ar[1])), ("conv-direct",))[1]
+    I.registry.call_contracts[MA + ".fft_convolve_two_children"] = lambda I_, ar, k, n: (calls.append(("fft", ar[0], ar[1])), ("conv-fft",))[1]
+    out = I.call_function(fi, [a, b], {}, force_inline=True)
+    want = ("direct", a, b) if small else ("fft", a, b)
+    P.check("dispatch.route", calls == [want] and out == (("conv-direct",) if small else ("conv-fft",)),
+            "grids with fewer than 1000 points use the direct convolution, larger ones the FFT convolution; exactly one of them runs, on (child_1, child_2), and its result is returned", kind="post")
+
+
 def h_sub_compute_S(I, fi):
     P = I.P
     D, G, d, k = dims(I)
@@ -184,6 +213,7 @@ def h_compute_log_S(I, fi):
 
 def verify_all(ctx, repo, prop):
     dsl.verify(ctx, repo, dsl.Registry(), prop, [TU + "._np_conv_dims", MA + ".fft_convolve_two_children"], h_conv, expect_covers=["direct", "fft"])
+    dsl.verify(ctx, repo, dsl.Registry(), prop, TU + "._convolve_two_children", h_dispatch, expect_covers=["dispatch.direct", "dispatch.fft"])
     dsl.verify(ctx, repo, _generic(TU + "._sub_compute_S"), prop, TU + "._sub_compute_S", h_sub_compute_S, expect_covers=["prefix-sum"])
     dsl.verify(ctx, repo, dsl.Registry(), prop, TU + ".compute_log_D", h_compute_log_D, expect_covers=["no-children", "one-child", "many-children", "log_D.step"])
     dsl.verify(ctx, repo, _generic(TU + "._sub_compute_S"), prop, TU + ".compute_log_S", h_compute_log_S, expect_covers=["S-empty", "S-nonempty"])
